@@ -166,6 +166,7 @@ ORIGINS = {
     # the abstract collections (PEP 585 spelling and typing aliases): bare use means Any at every position, like for list/dict
     "Iterable": (collections.abc.Iterable, typing.Iterable, (_ANY,)),
     "Collection": (collections.abc.Collection, typing.Collection, (_ANY,)),
+    "Reversible": (collections.abc.Reversible, typing.Reversible, (_ANY,)),
     "Sequence": (collections.abc.Sequence, typing.Sequence, (_ANY,)),
     "MutableSequence": (collections.abc.MutableSequence, typing.MutableSequence, (_ANY,)),
     "AbstractSet": (collections.abc.Set, typing.AbstractSet, (_ANY,)),
@@ -215,7 +216,7 @@ _ALIAS_NAME = {
     "list": "List", "set": "Set", "frozenset": "FrozenSet", "Counter": "typing.Counter", "deque": "Deque", "dict": "Dict",
     "defaultdict": "DefaultDict", "OrderedDict": "typing.OrderedDict", "ChainMap": "typing.ChainMap", "type": "Type",
     "Pattern": "typing.Pattern", "Match": "typing.Match",
-    "Iterable": "typing.Iterable", "Collection": "typing.Collection", "Sequence": "typing.Sequence",
+    "Iterable": "typing.Iterable", "Collection": "typing.Collection", "Reversible": "typing.Reversible", "Sequence": "typing.Sequence",
     "MutableSequence": "typing.MutableSequence", "AbstractSet": "typing.AbstractSet", "MutableSet": "typing.MutableSet",
     "Mapping": "typing.Mapping", "MutableMapping": "typing.MutableMapping",
 }
